@@ -494,6 +494,15 @@ def check_fault(case, rec):
         try:
             p = Program.from_source(text, working_dir=tmp if use_wd else None)
             fails.extend(program_line_failures(p, prog, lm, hist, rec))
+            if case["fault"] == "non_data_producer" and case.get("pre_read"):
+                # the producer of the wrong kind has been looked at (and so has run) before the model is run: the error
+                # about its consumer's argument is still located on that argument
+                try:
+                    p.commands["PV"].result
+                    classes = classes + ["ParameterNotValid"]
+                    rec.label("producer_finished_before_run")
+                except Exception:
+                    pass
             p.run()
             rec.exclude("fault_not_rejected:%s (C12 owns acceptance)" % case["fault"])
             return []
@@ -566,7 +575,7 @@ def check_fault(case, rec):
 
 @st.composite
 def fault_cases(draw):
-    fault = draw(st.sampled_from(FAULTS + ["cycle", "cycle"]))
+    fault = draw(st.sampled_from(FAULTS + ["cycle", "cycle", "non_data_producer"]))
     pools = {
         "invalid_direction": ["CvtToBinary", "CvtToFuzzy", "Sum"],
         "invalid_truest": ["CvtToFuzzy", "FuzzySelectedUnion", "CvtToBinary"],
@@ -589,7 +598,7 @@ def fault_cases(draw):
     classes, loc, use_wd = got
     prog = draw(lay_out(prog))
     return {"model": model, "prog": prog, "fault": fault, "classes": classes, "loc": list(loc), "working_dir": use_wd,
-            "cli": draw(st.integers(0, 2)) == 0}
+            "cli": draw(st.integers(0, 2)) == 0, "pre_read": draw(st.booleans())}
 
 
 @st.composite
